@@ -28,6 +28,8 @@ type Engine struct {
 	externs   map[string]*ExternSpec
 	privCache map[*ssa.Function]*privInfo
 	ctorCache map[*ssa.Function]bool
+
+	sealedCache map[string][]types.Type
 	specFuncs map[string]*SpecFunc
 	lemmas    []*LemmaSpec
 	files     []*ContractFile
@@ -369,6 +371,56 @@ func (e *Engine) loopHeader(s ast.Stmt) string {
 		return normalizeSrc(e.srcText(x.Pos(), x.Body.Lbrace))
 	}
 	return ""
+}
+
+// sealedImplementors: for an interface type with an unexported method, the types that can implement it are those of
+// the method's own package (no other package can declare that method): their list, or nil when the interface is open.
+func (e *Engine) sealedImplementors(t types.Type) []types.Type {
+	it, ok := t.Underlying().(*types.Interface)
+	if !ok || it.NumMethods() == 0 {
+		return nil
+	}
+	k := typeKey(t)
+	if e.sealedCache == nil {
+		e.sealedCache = map[string][]types.Type{}
+	}
+	if v, ok := e.sealedCache[k]; ok {
+		return v
+	}
+	var pkg *types.Package
+	for i := 0; i < it.NumMethods(); i++ {
+		m := it.Method(i)
+		if !m.Exported() && m.Pkg() != nil {
+			pkg = m.Pkg()
+			break
+		}
+	}
+	var out []types.Type
+	if pkg != nil {
+		names := pkg.Scope().Names()
+		sort.Strings(names)
+		for _, n := range names {
+			tn, ok := pkg.Scope().Lookup(n).(*types.TypeName)
+			if !ok || tn.IsAlias() {
+				continue
+			}
+			nt := tn.Type()
+			if _, isIface := nt.Underlying().(*types.Interface); isIface {
+				continue
+			}
+			if types.Implements(nt, it) {
+				out = append(out, nt)
+			}
+			if pt := types.NewPointer(nt); types.Implements(pt, it) {
+				out = append(out, pt)
+			}
+		}
+		if out == nil {
+			out = []types.Type{}
+		}
+	}
+	e.sealedCache[k] = out
+	return out
 }
 
 func (e *Engine) typeTag(t types.Type) int {
